@@ -15,6 +15,7 @@ package benchproc_test
 import (
 	"errors"
 	"fmt"
+	"regexp"
 	"strconv"
 	"strings"
 	"testing"
@@ -264,6 +265,51 @@ func c07StrCheck(c c07StrCase) *kit.Fail {
 				if m.All() != want {
 					return kit.Failf("value-"+c07SigSuffix(sp)+"-denotes-other-string", "filter %q is meant to test k against %q; on k=%q it gives %v", text, s, x, m.All())
 				}
+			}
+		}
+	}
+
+	// (1b) the quoted word next to a confusable sibling in ONE expression: a
+	// value of the shape "/x/" written as a quoted literal must still denote the
+	// literal string when the same expression also holds the regexp /x/ on the
+	// same key (an implementation that shares compiled terms by their printed
+	// form confuses the two - seeded change C07 seed2).
+	if len(s) >= 3 && s[0] == '/' && s[len(s)-1] == '/' {
+		inner := s[1 : len(s)-1]
+		safe := true
+		for i := 0; i < len(inner); i++ {
+			ch := inner[i]
+			if !(ch >= 'a' && ch <= 'z' || ch >= 'A' && ch <= 'Z' || ch >= '0' && ch <= '9' || strings.IndexByte(".*+?^$|", ch) >= 0) {
+				safe = false
+			}
+		}
+		if re, err := regexp.Compile(inner); safe && err == nil {
+			q := strconv.Quote(s)
+			texts := []string{
+				"k:" + q + " OR k:/" + inner + "/",
+				"k:/" + inner + "/ OR k:" + q,
+				"k:" + q + " -k:/" + inner + "/",
+				"k:(/" + inner + "/ OR " + q + ")",
+			}
+			for ti, text := range texts {
+				f, err := benchproc.NewFilter(text)
+				if err != nil {
+					kit.Count("c07 sibling-regexp texts not accepted (skipped)", 1)
+					continue
+				}
+				for _, x := range append([]string{s, inner, "", "zz" + inner + "zz"}, near...) {
+					r := c07Res{Name: "B", Cfg: []c07KV{{"k", x}}}
+					m, _ := f.Match(r.build())
+					lit, rx := x == s, re.MatchString(x)
+					want := lit || rx
+					if ti == 2 {
+						want = lit && !rx
+					}
+					if m.All() != want {
+						return kit.Failf("value-quoted-confused-with-regexp-sibling", "filter %q: quoted %s must denote the literal %q and /%s/ the regexp; on k=%q it gives %v, want %v", text, q, s, inner, x, m.All(), want)
+					}
+				}
+				kit.Count("c07 quoted literal next to regexp sibling", 1)
 			}
 		}
 	}
